@@ -103,6 +103,7 @@ class GmtOffset(Base):
         a = c.a
         a.t = c.int('t', 0, T_MAX - 1)
         a.z = c.int('z', -48, 56)
+        c.assume(a.t + 900 * a.z < T_MAX)
         if c.symbolic:
             c.p.ghost['tz_quarters'] = a.z
             local = c.it.call(c.loader.load('time').ns['localtime'], [a.t], {})
